@@ -19,13 +19,13 @@ PROPS = ["C01", "C02", "C03", "C04", "C05", "C06", "C07", "C08", "C09", "C10", "
 
 FALLBACK_CLAUSES = {
     "C03": ["bounded:numpy-equals-rowwise"],
-    "C01": ["ensures:view"],
+    "C01": ["ensures:view", "ensures:iN-accessors-alias-values"],
     "C02": ["ensures:view"],
     "C04": ["ensures:reserialises-identically", "ensures:wf"],
     "C05": ["ensures:bk"],
     "C06": ["ensures:fresh", "ensures:frame"],
-    "C07": ["ensures:view", "ensures:no-adoption", "ensures:other-unchanged"],
-    "C08": ["ensures:view", "ensures:wf"],
+    "C07": ["ensures:view", "ensures:no-adoption", "ensures:other-unchanged", "ensures:same-object", "ensures:fill-and-plot-still-bound-to-self"],
+    "C08": ["ensures:view", "ensures:wf", "ensures:iN-accessors-alias-values"],
     "C09": ["ensures:sound", "ensures:complete", "ensures:no-raise"],
     "C10": ["raises:frame", "ensures:compatible-params", "ensures:compatible-children"],
     "C12": ["raises:rollback"],
